@@ -317,7 +317,12 @@ where
                     q.qname().to_name(),
                     &zone_soa_answer,
                     read,
-                    xfr_data.compatibility_mode(),
+                    // Compatibility mode (one RR per response) is for
+                    // old AXFR clients only. An IXFR client takes a
+                    // first response consisting of just the SOA as the
+                    // RFC 1995 "single SOA" reply and would never see
+                    // the rest of the AXFR-style fallback.
+                    xfr_data.compatibility_mode() && q.qtype() == Rtype::AXFR,
                 )
                 .await?;
 
